@@ -50,7 +50,7 @@ pub static SPEC: Spec = Spec {
 
 const N_DFS: u64 = 24;
 /// fixed cases run in fair-lock mode: the N_DFS configurations again plus N_FAIR_EXTRA directed ones
-const N_FAIR_EXTRA: u64 = 8;
+const N_FAIR_EXTRA: u64 = 14;
 const N_FAIR: u64 = N_DFS + N_FAIR_EXTRA;
 
 #[derive(Clone, Debug, PartialEq)]
@@ -261,9 +261,33 @@ fn build(cfg: &Config) -> Result<Built, String> {
     let l = cfg.prelude as u64;
     let l0 = cfg.replica_upgraded as u64;
     if l0 > 0 {
-        // writer had only l0 blocks when the replica upgraded: emulate with a partial upgrade is
-        // not possible (partial upgrades still reach the full length), so use a second writer state
-        return Err("replica_upgraded > 0 unsupported".into());
+        // The replica already follows the writer up to l0 < l blocks (prelude, applied before any
+        // task starts): block proofs below l0 are valid at once and do not change the length,
+        // upgrade proofs l0 -> l compete. Proof list: 0: upgrade + block l0; 1..l0-1: block i
+        // without upgrade; l0: upgrade + block l-1; l0+1: upgrade + block (l0+l)/2.
+        let ww2 = World::new();
+        let mut w0 = mk(&ww2, true)?;
+        for i in 0..l0 as u32 {
+            exec::block_on(w0.append(&prelude_block(i))).map_err(|e| e.to_string())?;
+        }
+        let p_init = exec::block_on(w0.create_proof(Some(RequestBlock { index: 0, nodes: 0 }), None, None, Some(RequestUpgrade { start: 0, length: l0 }))).map_err(|e| e.to_string())?.ok_or("no proof")?;
+        exec::block_on(rep.verify_and_apply_proof(&p_init)).map_err(|e| e.to_string())?;
+        let tw = World::new();
+        let mut twin = mk(&tw, false)?;
+        exec::block_on(twin.verify_and_apply_proof(&p_init)).map_err(|e| e.to_string())?;
+        let mut proofs = vec![];
+        let up = Some(RequestUpgrade { start: l0, length: l - l0 });
+        let n = exec::block_on(twin.missing_nodes(l0)).map_err(|e| e.to_string())?;
+        proofs.push(exec::block_on(w.create_proof(Some(RequestBlock { index: l0, nodes: n }), None, None, up.clone())).map_err(|e| e.to_string())?.ok_or("no proof")?);
+        for i in 1..l0 {
+            let n = exec::block_on(twin.missing_nodes(i)).map_err(|e| e.to_string())?;
+            proofs.push(exec::block_on(w.create_proof(Some(RequestBlock { index: i, nodes: n }), None, None, None)).map_err(|e| e.to_string())?.ok_or("no proof")?);
+        }
+        for b in [l - 1, (l0 + l) / 2] {
+            let n = exec::block_on(twin.missing_nodes(b)).map_err(|e| e.to_string())?;
+            proofs.push(exec::block_on(w.create_proof(Some(RequestBlock { index: b, nodes: n }), None, None, up.clone())).map_err(|e| e.to_string())?.ok_or("no proof")?);
+        }
+        return Ok(Built { core: rep, world, proofs });
     }
     let mut proofs = vec![];
     // proof 0: upgrade 0 -> l (with block 0); proofs 1..: blocks without upgrade (valid only after the upgrade)
@@ -775,6 +799,7 @@ fn fair_config(k: u64) -> Config {
     let a = |t: u32| Call::Append(t, 5);
     let w = |tasks: Vec<Vec<Call>>| Config { replica: false, key_seed: 15_500 + k, prelude: 2, replica_upgraded: 0, tasks };
     let rp = |tasks: Vec<Vec<Call>>| Config { replica: true, key_seed: 15_500 + k, prelude: 4, replica_upgraded: 0, tasks };
+    let rpu = |tasks: Vec<Vec<Call>>| Config { replica: true, key_seed: 15_500 + k, prelude: 8, replica_upgraded: 4, tasks };
     match k {
         0 => w(vec![vec![Call::Batch(vec![(1, 4), (2, 4), (3, 4)])], vec![a(4)], vec![Call::Info, Call::Info, Call::Info]]),
         1 => w(vec![vec![Call::Batch(vec![(1, 4), (2, 4)])], vec![Call::Batch(vec![(3, 4), (4, 4), (5, 4)])], vec![Call::Has(3), Call::Info, Call::Has(4), Call::Get(3)]]),
@@ -783,6 +808,14 @@ fn fair_config(k: u64) -> Config {
         4 => w(vec![vec![a(1), a(2)], vec![Call::Batch(vec![(3, 4), (4, 4)]), Call::Info], vec![Call::Get(3), Call::Info, Call::Has(4)]]),
         5 => w(vec![vec![Call::Clear(0, 2)], vec![a(1)], vec![Call::Info, Call::Has(0), Call::Get(1)]]),
         6 => rp(vec![vec![Call::Apply(5)], vec![Call::Apply(0)], vec![Call::Apply(4)], vec![Call::Get(2), Call::Get(3), Call::Get(0)]]),
+        // warm-up calls first (storage operations, no conflict) so that waiters have queued up and
+        // the hand-over is fair by the time the conflicting calls run
+        8 => rpu(vec![vec![Call::Apply(1), Call::Apply(0)], vec![Call::Apply(2), Call::Apply(4)], vec![Call::Apply(3), Call::Apply(5)]]),
+        9 => rpu(vec![vec![Call::Apply(1), Call::Apply(0)], vec![Call::Apply(2), Call::Apply(4)], vec![Call::Get(0), Call::Info, Call::Has(7), Call::Get(7)]]),
+        10 => rpu(vec![vec![Call::Get(0), Call::Apply(0)], vec![Call::Get(0), Call::Apply(5)], vec![Call::Get(0), Call::Apply(4)]]),
+        11 => w(vec![vec![Call::Get(0), Call::Batch(vec![(1, 4), (2, 4), (3, 4)])], vec![Call::Get(1), a(4)], vec![Call::Get(0), Call::Info, Call::Has(3), Call::Info]]),
+        12 => w(vec![vec![Call::CreateProof(Some(0), None), Call::Batch(vec![(1, 4), (2, 4)]), Call::Info], vec![Call::Get(1), a(3), Call::Info], vec![Call::Get(0), Call::Get(2), Call::Get(3), Call::Get(4)]]),
+        13 => w(vec![vec![Call::Get(0), a(1), a(2)], vec![Call::Get(1), Call::Batch(vec![(3, 4), (4, 4), (5, 4)])], vec![Call::Get(0), Call::Has(2), Call::Has(4), Call::Info]]),
         _ => w(vec![vec![Call::Batch(vec![(1, 4), (2, 4), (3, 4), (4, 4)])], vec![a(5)], vec![a(6)], vec![Call::Info, Call::Has(5), Call::Info, Call::Has(3)]]),
     }
 }
